@@ -248,7 +248,7 @@ def cases(draw):
                 # around a DST transition of that zone: clock times in the skipped or repeated hour
                 import pytz
                 tt = [t for t in pytz.timezone(c["tz"])._utc_transition_times if 1971 <= t.year <= 2036]
-                t = tt[draw(st.integers(0, len(tt) - 1))] + dt.timedelta(hours=draw(st.integers(-20, 20)))
+                t = draw(st.sampled_from(tt)) + dt.timedelta(hours=draw(st.integers(-20, 20)))
                 c["ref"] = [t.year, t.month, t.day, t.hour, draw(st.sampled_from([0, 30])), 0, 0]
                 c["hm"] = [draw(st.sampled_from([0, 1, 2, 3])), draw(st.sampled_from([0, 30, 59]))]
     else:
